@@ -5,6 +5,7 @@ pub mod c04;
 pub mod c05;
 pub mod c06;
 pub mod c07;
+pub mod c08;
 pub mod c09;
 pub mod c12;
 pub mod c13;
@@ -35,6 +36,7 @@ pub fn dispatch(id: &str, tier: Tier, replay_file: Option<&Path>) -> i32 {
         "C04" => go!(c04),
         "C05" => go!(c05),
         "C06" => go!(c06),
+        "C08" => go!(c08),
         "C07" => {
             let spec = c07::spec_for(tier);
             match replay_file {
